@@ -4,7 +4,9 @@ import (
 	"fmt"
 	"go/ast"
 	"go/parser"
+	"go/constant"
 	"go/token"
+	"go/types"
 	"os"
 	"os/exec"
 	"path/filepath"
@@ -120,6 +122,12 @@ func init() {
 		g.emitBytes("newline_marker", "txtar", "newlineMarker")
 		g.emitXtools()
 	}
+	// literals inside txtar.Quote / txtar.Unquote (C14 only, so that a restructured
+	// Quote does not re-open C03)
+	groups["TxtarQuote"] = func(g *gen) { g.emitQuoteLiterals() }
+	// the decoding tables and masks of unicode/utf8 (unexported), read from the
+	// toolchain's source $GOROOT/src/unicode/utf8/utf8.go and evaluated with go/types
+	groups["Utf8Tables"] = func(g *gen) { g.emitUtf8Tables() }
 	// The white-space tables behind unicode.IsSpace (used by strings.TrimSpace), taken
 	// from the standard library this program is compiled with -- the same toolchain
 	// compiles the runner and /repo's code.  unicode.IsSpace answers Latin-1 from a
@@ -149,5 +157,183 @@ func init() {
 			runtime.Version(), strings.Join(rs, ";\n   "))
 		fmt.Fprintf(&g.buf, "(* unicode.MaxLatin1, utf8.RuneError, utf8.RuneSelf, unicode.MaxRune *)\nDefinition max_latin1 : N := %d%%N.\nDefinition rune_error : N := %d%%N.\nDefinition rune_self : N := %d%%N.\nDefinition max_rune : N := %d%%N.\n\n",
 			unicode.MaxLatin1, 0xFFFD, 0x80, unicode.MaxRune)
+	}
+}
+
+// emitQuoteLiterals reads the literals inside txtar.Quote and txtar.Unquote: the byte
+// Quote puts in front of every line (append(nd, '>')), the byte Unquote expects first
+// (data[0] != '>'), and the arguments of bytes.Replace and bytes.TrimPrefix in Unquote.
+func (g *gen) emitQuoteLiterals() {
+	charLit := func(e ast.Expr) (string, bool) {
+		if lit, ok := e.(*ast.BasicLit); ok && lit.Kind == token.CHAR {
+			if s, err := strconv.Unquote(lit.Value); err == nil && len(s) == 1 {
+				return s, true
+			}
+		}
+		return "", false
+	}
+	if fd := g.funcDecl("txtar", "Quote"); fd != nil && fd.Body != nil {
+		var marks []string
+		ast.Inspect(fd.Body, func(n ast.Node) bool {
+			if call, ok := n.(*ast.CallExpr); ok {
+				if id, ok := call.Fun.(*ast.Ident); ok && id.Name == "append" && len(call.Args) == 2 {
+					if c, ok := charLit(call.Args[1]); ok {
+						marks = append(marks, c)
+					}
+				}
+			}
+			return true
+		})
+		if len(marks) != 1 {
+			g.fail("txtar.Quote: expected exactly one append(_, <char literal>), found %d", len(marks))
+		} else {
+			g.emitBytesLit("quote_mark", "txtar.Quote: append(nd, <this>) at every line start", marks[0])
+		}
+	}
+	if fd := g.funcDecl("txtar", "Unquote"); fd != nil && fd.Body != nil {
+		var firsts []string
+		var repl, trim [][]string
+		ast.Inspect(fd.Body, func(n ast.Node) bool {
+			switch n := n.(type) {
+			case *ast.BinaryExpr:
+				if ix, ok := n.X.(*ast.IndexExpr); ok && n.Op == token.NEQ {
+					if lit, ok := ix.Index.(*ast.BasicLit); ok && lit.Value == "0" {
+						if c, ok := charLit(n.Y); ok {
+							firsts = append(firsts, c)
+						}
+					}
+				}
+			case *ast.CallExpr:
+				if sel, ok := n.Fun.(*ast.SelectorExpr); ok {
+					if x, ok := sel.X.(*ast.Ident); ok && x.Name == "bytes" {
+						var args []string
+						for _, a := range n.Args[1:] {
+							if s, ok := g.str(a); ok {
+								args = append(args, s)
+							} else if u, ok := a.(*ast.UnaryExpr); ok && u.Op == token.SUB {
+								args = append(args, "-")
+							}
+						}
+						switch sel.Sel.Name {
+						case "Replace":
+							repl = append(repl, args)
+						case "TrimPrefix":
+							trim = append(trim, args)
+						}
+					}
+				}
+			}
+			return true
+		})
+		if len(firsts) != 1 || len(repl) != 1 || len(repl[0]) != 3 || repl[0][2] != "-" || len(trim) != 1 || len(trim[0]) != 1 {
+			g.fail("txtar.Unquote: expected data[0] != <char>, bytes.Replace(data, <lit>, <lit>, -1) and bytes.TrimPrefix(data, <lit>)")
+			return
+		}
+		g.emitBytesLit("unquote_first", "txtar.Unquote: data[0] != <this>", firsts[0])
+		g.emitBytesLit("unquote_old", "txtar.Unquote: bytes.Replace(data, <this>, _, -1)", repl[0][0])
+		g.emitBytesLit("unquote_new", "txtar.Unquote: bytes.Replace(data, _, <this>, -1)", repl[0][1])
+		g.emitBytesLit("unquote_prefix", "txtar.Unquote: bytes.TrimPrefix(data, <this>)", trim[0][0])
+	}
+}
+
+func (g *gen) emitUtf8Tables() {
+	file := filepath.Join(runtime.GOROOT(), "src", "unicode", "utf8", "utf8.go")
+	fset := token.NewFileSet()
+	f, err := parser.ParseFile(fset, file, nil, 0)
+	if err != nil {
+		g.fail("cannot parse %s: %v", file, err)
+		return
+	}
+	info := &types.Info{Types: map[ast.Expr]types.TypeAndValue{}, Defs: map[*ast.Ident]types.Object{}}
+	conf := types.Config{Error: func(error) {}}
+	pkg, _ := conf.Check("unicode/utf8", fset, []*ast.File{f}, info)
+	if pkg == nil {
+		g.fail("cannot type-check %s", file)
+		return
+	}
+	num := func(e ast.Expr) (int64, bool) {
+		tv, ok := info.Types[e]
+		if !ok || tv.Value == nil {
+			return 0, false
+		}
+		return constant.Int64Val(constant.ToInt(tv.Value))
+	}
+	cst := func(name string) (int64, bool) {
+		c, ok := pkg.Scope().Lookup(name).(*types.Const)
+		if !ok {
+			return 0, false
+		}
+		return constant.Int64Val(constant.ToInt(c.Val()))
+	}
+	var firstLit, acceptLit *ast.CompositeLit
+	for _, d := range f.Decls {
+		gd, ok := d.(*ast.GenDecl)
+		if !ok || gd.Tok != token.VAR {
+			continue
+		}
+		for _, sp := range gd.Specs {
+			vs := sp.(*ast.ValueSpec)
+			for i, id := range vs.Names {
+				if i < len(vs.Values) {
+					if cl, ok := vs.Values[i].(*ast.CompositeLit); ok {
+						switch id.Name {
+						case "first":
+							firstLit = cl
+						case "acceptRanges":
+							acceptLit = cl
+						}
+					}
+				}
+			}
+		}
+	}
+	if firstLit == nil || acceptLit == nil || len(firstLit.Elts) != 256 {
+		g.fail("unicode/utf8: var first [256]uint8 / var acceptRanges not found as composite literals")
+		return
+	}
+	var fs []string
+	for _, e := range firstLit.Elts {
+		v, ok := num(e)
+		if !ok {
+			g.fail("unicode/utf8.first: element is not a constant")
+			return
+		}
+		fs = append(fs, fmt.Sprint(v))
+	}
+	acc := make([][2]int64, 16)
+	for _, e := range acceptLit.Elts {
+		kv, ok := e.(*ast.KeyValueExpr)
+		if !ok {
+			g.fail("unicode/utf8.acceptRanges: expected keyed elements")
+			return
+		}
+		k, ok1 := num(kv.Key)
+		cl, ok2 := kv.Value.(*ast.CompositeLit)
+		if !ok1 || !ok2 || len(cl.Elts) != 2 || k < 0 || k > 15 {
+			g.fail("unicode/utf8.acceptRanges: unexpected element")
+			return
+		}
+		lo, ok3 := num(cl.Elts[0])
+		hi, ok4 := num(cl.Elts[1])
+		if !ok3 || !ok4 {
+			g.fail("unicode/utf8.acceptRanges: bounds are not constants")
+			return
+		}
+		acc[k] = [2]int64{lo, hi}
+	}
+	var as []string
+	for _, a := range acc {
+		as = append(as, fmt.Sprintf("(%d, %d)", a[0], a[1]))
+	}
+	fmt.Fprintf(&g.buf, "(* unicode/utf8.first (%s) *)\nDefinition utf8_first : list N :=\n  [%s]%%N.\n\n", runtime.Version(), strings.Join(fs, "; "))
+	fmt.Fprintf(&g.buf, "(* unicode/utf8.acceptRanges: (lo, hi); unset entries are the zero value *)\nDefinition utf8_accept_ranges : list (N * N) :=\n  [%s]%%N.\n\n", strings.Join(as, "; "))
+	for _, nv := range [][2]string{{"utf8_as", "as"}, {"utf8_xx", "xx"}, {"utf8_maskx", "maskx"}, {"utf8_mask2", "mask2"}, {"utf8_mask3", "mask3"}, {"utf8_mask4", "mask4"},
+		{"utf8_locb", "locb"}, {"utf8_hicb", "hicb"}, {"utf8_rune_error", "RuneError"}, {"utf8_rune_self", "RuneSelf"}, {"utf8_utf_max", "UTFMax"}} {
+		v, ok := cst(nv[1])
+		if !ok {
+			g.fail("unicode/utf8: constant %s not found", nv[1])
+			continue
+		}
+		fmt.Fprintf(&g.buf, "(* unicode/utf8.%s *)\nDefinition %s : N := %d%%N.\n\n", nv[1], nv[0], v)
 	}
 }
